@@ -25,14 +25,14 @@ for d in sorted(glob.glob(V+"/benign_refactors/C*-r*")):
     if r.returncode!=0:
         print(bid,"PATCH DOES NOT APPLY",(r.stdout+r.stderr)[:200]); continue
     shutil.rmtree(SV,ignore_errors=True); os.makedirs(SV); shutil.copy(V+"/known_findings.json",SV)
-    out=subprocess.run([V+"/bin/sopverif","check","--property","all","--repo",S,"--verif",SV],capture_output=True,text=True).stdout
+    out=subprocess.run([os.environ.get("SOPVERIF",V+"/bin/sopverif"),"check","--property","all","--repo",S,"--verif",SV],capture_output=True,text=True).stdout
     lines=[l.strip() for l in out.splitlines() if re.match(r"^\s+(violated|undecided) \[",l)]
     load=[l for l in out.splitlines() if "cannot load" in l or "type errors" in l]
     rules=sorted(set(re.findall(r"\[(C\d+\.[A-Za-z0-9]+)\]"," ".join(lines))))
     res={"id":bid,"property":bid.split("-")[0],"checked_at_repo_commit":head,"reported_rules":rules,"reports":lines,"load_errors":load}
     old={}
     if os.path.exists(d+"/result.json"): old=json.load(open(d+"/result.json"))
-    for k in ("judgement","note"): 
+    for k in ("judgement","note","initial_reported_rules"): 
         if k in old: res[k]=old[k]
     json.dump(res,open(d+"/result.json","w"),indent=1)
     print(bid,"SILENT" if not rules and not load else "REPORTED %s %s"%(rules,load[:1]),flush=True)
